@@ -327,7 +327,10 @@ def fam_gram(tier, rng, policies=False, corrupt=True, trunc=True):
         ops.append(f"visit tx n {hx(b + trail)}")
         if policies:
             nb = len(tx.ins) + len(tx.outs) + (len(tx.ins) if tx.segwit else 0) + 1
-            for k in range(nb + 1):
+            ks = range(nb + 1) if nb <= 24 else sorted({0, 1, 2, nb // 3, nb // 2, nb - 2, nb - 1, nb, nb + 1,
+                                                         len(tx.ins) - 1, len(tx.ins), len(tx.ins) + len(tx.outs) - 1,
+                                                         len(tx.ins) + len(tx.outs)})
+            for k in ks:
                 ops.append(f"visit tx b{k} {hx(b + trail)}")
         # components
         parts = tx.parts()
@@ -408,6 +411,68 @@ def fam_gram(tier, rng, policies=False, corrupt=True, trunc=True):
             for name, cb in corruptions(parts):
                 ops.append(f"visit block n {hx(cb)}")
         # finds: each txid present / absent (ids are computed by the model from the tx bytes: use `visit tx` hash)
+    return ops
+
+
+
+def fam_bound(tier, rng):
+    """P-bound: element counts and lengths exactly at the compact-size thresholds (252/253/254, 65535/65536), tiny
+    transactions and blocks of them with and without trailing bytes, compact sizes followed by >= 8 more bytes"""
+    ops = []
+    pat = Pat(7)
+    out9 = lambda i: struct.pack("<Q", 1000 + i) + b"\x00"
+    out10 = lambda i: struct.pack("<Q", 1000 + i) + b"\x01" + bytes([i % 251 + 1])
+    inp = lambda i: pat.take(32) + struct.pack("<I", i) + b"\x00" + struct.pack("<I", 0xFFFFFF00 + i % 256)
+    for n in (252, 253, 254) + ((65535, 65536) if tier == "thorough" else ()):
+        outs = cs(n) + b"".join((out9(i) if i % 2 else out10(i)) for i in range(n))
+        ops.append(f"visit txouts n {hx(outs)}")
+        ops.append(f"visit txouts b{n - 1} {hx(outs)}")
+        ops.append(f"redb txouts {hx(outs)}")
+        ins = cs(n) + b"".join(inp(i) for i in range(n))
+        ops.append(f"visit txins n " + hx(ins + b'\x00'))
+        wit = cs(n) + b"".join(cs(i % 3) + bytes([7] * (i % 3)) for i in range(n))
+        ops.append(f"visit witness n {hx(wit)}")
+        wits = b"".join(b"\x00" if i % 3 else b"\x01\x01\xaa" for i in range(n))
+        ops.append(f"visit witnesses:{n} n {hx(wits)}")
+        tx = struct.pack("<i", 2) + ins + outs + struct.pack("<I", 7)
+        ops.append(f"visit tx n {hx(tx)}")
+        # a block of n tiny transactions (12 bytes each: segwit form, no inputs, no outputs)
+        tiny = bytes([1, 0, 0, 0, 0, 1, 0, 0, 0, 0, 0, 0])
+        blk = header(pat) + cs(n) + tiny * n
+        ops.append(f"visit block n {hx(blk)}")
+    # script / witness element lengths at the thresholds
+    for l in (252, 253, 254, 65535, 65536) if tier == "quick" else (252, 253, 254, 65535, 65536, 65537, 70000):
+        body = bytes((i * 13 + 5) % 256 for i in range(l))
+        ops.append(f"visit script n " + hx(cs(l) + body + b'\x09'))
+        ops.append(f"visit txout n {hx(struct.pack('<Q', 5) + cs(l) + body)}")
+        ops.append(f"visit witness n " + hx(cs(3) + cs(1) + b'\x11' + cs(l) + body + cs(2) + b'\x22\x33'))
+        ops.append(f"visit witnesses:2 n " + hx(cs(1) + cs(1) + b'\x44' + cs(2) + cs(l) + body + cs(0) + b'\x77'))
+        t = Tx(2, [(pat.take(32), 1, b"\x51", 0xFFFFFFFE), (pat.take(32), 0, b"", 5)], [(9, body[:40])],
+               [[b"\x01", body], []], 0x11223344, True)
+        ops.append(f"visit tx n {hx(t.enc())}")
+        ops.append(f"visit tx b3 {hx(t.enc())}")
+        t2 = Tx(1, [(pat.take(32), 1, body, 0xFFFFFFFE)], [(9, body)], [], 3, False)
+        ops.append(f"visit tx n " + hx(t2.enc() + b'\x00'))
+    # the smallest transactions the parser accepts, exact length and with 1..60 trailing bytes; blocks ending in them
+    tiny_seg = bytes([1, 0, 0, 0, 0, 1, 0, 0, 0, 0, 0, 0])
+    tiny_leg = struct.pack("<i", 1) + b"\x01" + inp(3) + b"\x00" + struct.pack("<I", 0)
+    for t in (tiny_seg, tiny_leg):
+        for k in list(range(0, 12)) + [20, 40, 48, 49, 59, 60, 61]:
+            ops.append(f"visit tx n {hx(t + bytes([0xEE] * k))}")
+        for ntx in (1, 2, 5):
+            blk = header(pat) + cs(ntx) + t * ntx
+            for k in (0, 1, 8, 9, 50):
+                ops.append(f"visit block n {hx(blk + bytes([0xDD] * k))}")
+            ops.append(f"visit block b{ntx} {hx(blk)}")
+    # compact sizes at the thresholds, followed by 0..12 more bytes (decoders with a wide fast path)
+    for b0 in (b"\xfc", b"\xfd\xfc\x00", b"\xfd\xfd\x00", b"\xfd\xff\xff", b"\xfe\xff\xff\x00\x00", b"\xfe\x00\x00\x01\x00",
+               b"\xfe\xff\xff\xff\xff", b"\xff\xff\xff\xff\xff\x00\x00\x00\x00", b"\xff\x00\x00\x00\x00\x01\x00\x00\x00",
+               b"\xff" * 9, b"\xfd\x00\x00", b"\xfe\x00\x00\x00\x00", b"\xff" + b"\x00" * 8):
+        for k in range(0, 13):
+            tail = bytes((17 * i + 3) % 256 for i in range(k))
+            ops.append(f"scan {hx(b0 + tail)} {k}")
+            ops.append(f"plen {hx(b0 + tail)}")
+            ops.append(f"visit script n {hx(b0 + tail)}")
     return ops
 
 
